@@ -8,5 +8,5 @@ git apply $d/patch.diff || { echo "patch does not apply"; exit 8; }
 /venv/bin/python $d/demo.py > /tmp/seed_demo.out 2>&1; echo "demo with change: exit $?"; tail -3 /tmp/seed_demo.out | cut -c1-300
 if [ -n "$RUN_TESTS" ]; then /venv/bin/python -m pytest -q -p no:cacheprovider -x 2>&1 | tail -1; fi
 cd /verif
-for p in "$@"; do ./check $p --evidence-dir /tmp/seed_ev | grep -E "^VIOLATION|^UNDECIDED|^FAULT|^$p:" | cut -c1-330 | head -${LINES_OUT:-14}; done
+for p in "$@"; do ./check $p --evidence-dir /tmp/seed_ev > /tmp/seed_check.out; grep -E "^VIOLATION|^UNDECIDED|^FAULT" /tmp/seed_check.out | cut -c1-330 | head -${LINES_OUT:-14}; grep -E "^$p:" /tmp/seed_check.out; done
 git -C /repo checkout -- . ; rm -rf /tmp/seed_ev
